@@ -17,9 +17,10 @@ import (
 	"verif/harness/probe"
 )
 
-// Backends lists the metastore implementations a world can sit on: the in-memory store, and the two DynamoDB
-// plug-ins over the semantic DynamoDB fake, and the SQL metastore over the mini SQL engine.
-var Backends = []string{"memory", "dynamodb-v1", "dynamodb-v2", "sql"}
+// Backends lists the metastore implementations a world can sit on: the in-memory store, the two DynamoDB plug-ins
+// over the semantic DynamoDB fake (without and with their region-suffix option), and the SQL metastore over the
+// mini SQL engine.
+var Backends = []string{"memory", "dynamodb-v1", "dynamodb-v2", "sql", "dynamodb-v1-suffix", "dynamodb-v2-suffix"}
 
 var v1sess = awssession.Must(awssession.NewSession(aws.NewConfig().WithRegion("us-west-2")))
 
@@ -92,6 +93,20 @@ func NewOn(secretImpl, backend string) *World {
 			panic(err)
 		}
 		w.plug = &plug{backend, ms, t.SetRevoked, nil, t, nil}
+	case "dynamodb-v1-suffix":
+		// the plug-in's own region-suffix option: the SDK appends the plug-in's region to every key id
+		t := ddb.NewTable("EncryptionKey")
+		ms := v1p.NewDynamoDBMetastore(v1sess, v1p.WithClient(ddb.V1{T: t}), v1p.WithDynamoDBRegionSuffix(true))
+		w.plug = &plug{backend, ms, t.SetRevoked, nil, t, nil}
+		w.Suffix = ms.GetRegionSuffix()
+	case "dynamodb-v2-suffix":
+		t := ddb.NewTable("EncryptionKey")
+		ms, err := v2m.NewDynamoDB(v2m.WithDynamoDBClient(ddb.V2{T: t}), v2m.WithRegionSuffix(true))
+		if err != nil {
+			panic(err)
+		}
+		w.plug = &plug{backend, ms, t.SetRevoked, nil, t, nil}
+		w.Suffix = ms.GetRegionSuffix()
 	case "sql":
 		// the SQL metastore over the mini SQL engine behind database/sql (MySQL placeholder dialect)
 		db, h := sqlmini.Open(sqlmini.MySQL)
